@@ -46,10 +46,11 @@ type File struct {
 }
 
 type Case struct {
-	Case   string `json:"case"`
-	Files  []File `json:"files"`
+	Case   string  `json:"case"`
+	Files  []File  `json:"files"`
 	Runs   [][]int `json:"runs"`
-	Layout int    `json:"layout"`
+	Fresh  []bool  `json:"fresh"` // Fresh[i]: run i is executed in a fresh OS process
+	Layout int     `json:"layout"`
 }
 
 type ApiObs struct {
@@ -71,6 +72,7 @@ type Record struct {
 	Case     string   `json:"case"`
 	Files    []File   `json:"files"`
 	Runs     [][]int  `json:"runs"`
+	Fresh    []bool   `json:"fresh"`
 	Layout   int      `json:"layout"`
 	Observed []RunObs `json:"observed"`
 }
@@ -181,6 +183,9 @@ func runOnce(c Case, ri int, scratch string) RunObs {
 }
 
 func norm(c *Case) {
+	if c.Fresh == nil {
+		c.Fresh = []bool{}
+	}
 	for i := range c.Files {
 		if c.Files[i].Members == nil {
 			c.Files[i].Members = []Member{}
@@ -204,8 +209,22 @@ func one(raw json.RawMessage) interface{} {
 		panic(err)
 	}
 	defer os.RemoveAll(scratch)
-	rec := Record{Case: c.Case, Files: c.Files, Runs: c.Runs, Layout: c.Layout}
+	rec := Record{Case: c.Case, Files: c.Files, Runs: c.Runs, Fresh: c.Fresh, Layout: c.Layout}
 	for ri := range c.Runs {
+		if ri < len(c.Fresh) && c.Fresh[ri] {
+			sub := Case{Case: c.Case, Files: c.Files, Runs: [][]int{c.Runs[ri]}, Layout: c.Layout}
+			raw, err := lib.Fresh(sub)
+			var sr Record
+			if err == nil {
+				err = json.Unmarshal(raw, &sr)
+			}
+			if err != nil || len(sr.Observed) != 1 {
+				rec.Observed = append(rec.Observed, RunObs{Panic: true, Apis: []ApiObs{}, Note: fmt.Sprint("fresh run failed: ", err)})
+			} else {
+				rec.Observed = append(rec.Observed, sr.Observed[0])
+			}
+			continue
+		}
 		rec.Observed = append(rec.Observed, runOnce(c, ri, scratch))
 	}
 	return rec
@@ -215,7 +234,7 @@ func abnormal(raw json.RawMessage, timeout bool, stderr string) interface{} {
 	var c Case
 	json.Unmarshal(raw, &c)
 	norm(&c)
-	rec := Record{Case: c.Case, Files: c.Files, Runs: c.Runs, Layout: c.Layout}
+	rec := Record{Case: c.Case, Files: c.Files, Runs: c.Runs, Fresh: c.Fresh, Layout: c.Layout}
 	for range c.Runs {
 		rec.Observed = append(rec.Observed, RunObs{Panic: true, Apis: []ApiObs{}, Note: "process died: " + stderr})
 	}
@@ -311,6 +330,7 @@ func gen(seed int64, n int, tier string) []interface{} {
 				}
 			}
 			c.Runs = append(c.Runs, p)
+			c.Fresh = append(c.Fresh, j > 0 && r.Intn(2) == 0)
 		}
 		out = append(out, c)
 	}
